@@ -845,16 +845,17 @@ class Func:
                         if u["kind"] == "switch":
                             sw = u["term"]
                             sb = u["bb"]
+                            # Result / ControlFlow: 0 = Ok / Continue (pass); Option: 1 = Some (pass).  The
+                            # passing variant may be the explicit arm or the `otherwise` edge (`if let Some(x)`
+                            # lists only arm 1, `if let Err(e)` only arm 1 of a Result).
+                            labs = [lab for _, lab in self.succ(sb)]
+                            ty = self.local_ty(src_local)
+                            want = "1" if ty.startswith("core::option::Option") else "0"
+                            other = "0" if want == "1" else "1"
+                            pass_lab = want if want in labs else ("else" if other in labs else want)
                             pass_e, fail_e = [], []
                             for tgt, lab in self.succ(sb):
-                                (pass_e if lab == "0" else fail_e).append((sb, tgt))
-                            # `else` after arm 0 with single other variant = fail (Err/Break/None)
-                            # for Option: 0 = None (fail), 1 = Some (pass)
-                            ty = self.local_ty(src_local)
-                            if ty.startswith("core::option::Option"):
-                                pass_e, fail_e = [], []
-                                for tgt, lab in self.succ(sb):
-                                    (fail_e if lab == "0" else pass_e).append((sb, tgt))
+                                (pass_e if lab == pass_lab else fail_e).append((sb, tgt))
                             checks.append({"switch_bb": sb, "pass_edges": pass_e, "fail_edges": fail_e,
                                            "on": src_local, "at": sw["sp"]["at"]})
         # `if r.is_err() { return Err(..) }` / `if r.is_ok() { .. }`: the variant test as a boolean
